@@ -403,3 +403,75 @@ End WC.
 Lemma control_unparsable_relation_panics :
   control_ws fixed (fun _ => Panic 20) (Spaces 1) false None (tree_of WC.d_bad_relation) = Panic 20.
 Proof. vm_compute. reflexivity. Qed.
+
+(* ---------------------------------------------------------------- formatters that absorb the re-layout *)
+(* the formatter gives the same output when its own output comes back with a blank or a line break
+   in front (which is all the re-layout of a value adds), and never starts its output with one *)
+Definition lead_char (ch : N) : bool := is_indent ch || (ch =? 10)%N.
+Definition absorbing (g : str -> str -> str) : Prop :=
+  forall name v lead, forallb lead_char lead = true -> g name (lead ++ g name v) = g name v.
+Definition no_lead (g : str -> str -> str) : Prop :=
+  forall name v, match g name v with [] => True | ch :: _ => lead_char ch = false end.
+
+Lemma span_indent_no_lead o : match o with [] => True | ch :: _ => lead_char ch = false end -> span is_indent o = ([], o).
+Proof.
+  destruct o as [|ch r]; [reflexivity|]. intros H. cbn [span]. unfold lead_char in H. apply orb_false_iff in H. destruct H as [H _].
+  rewrite H. reflexivity.
+Qed.
+
+Lemma parse_value_no_lead o w first conts :
+  match o with [] => True | ch :: _ => lead_char ch = false end -> parse_value o = (w, first, conts) ->
+  w = [] /\ (first = [] -> conts = [] /\ o = []).
+Proof.
+  intros Hn Hp. pose proof (parse_value_text o w first conts Hp) as Ho.
+  unfold parse_value in Hp. rewrite (span_indent_no_lead o Hn) in Hp.
+  destruct (split_lf o) as [|l1 rest] eqn:El; [injection Hp as <- <- <-; split; [reflexivity|intros _; split; [reflexivity|]]|].
+  - exfalso. apply (split_lf_go_nonempty o [] El).
+  - injection Hp as <- <- <-. split; [reflexivity|]. intros ->. unfold value_text in Ho. cbn [app] in Ho.
+    destruct rest as [|t r]; [split; [reflexivity|exact Ho]|]. exfalso. cbn [flat_map app] in Ho. subst o.
+    unfold lead_char, LF in Hn. cbn in Hn. discriminate.
+Qed.
+
+Theorem absorbing_stable c g f : absorbing g -> no_lead g -> conts_nonempty f = true -> fmt_shaped_on (Some g) f = true ->
+  field_stable c (Some g) f /\ fmt_lexes (Some g) (a_ws_field c (Some g) f).
+Proof.
+  intros Ha Hn Hcn Hs. pose proof (shaped_lexes (Some g) f Hs) as Hl.
+  set (v := value_text (field_ws0 f) (f_first f) (map snd (f_cont f))) in *.
+  set (o := g (f_name f) v) in *.
+  assert (Hkey : g (f_name f) (value_text (field_ws0 (a_ws_field c (Some g) f)) (f_first (a_ws_field c (Some g) f))
+                                   (map snd (f_cont (a_ws_field c (Some g) f)))) = o).
+  { unfold a_ws_field. fold v. fold o. specialize (Hn (f_name f) v). fold o in Hn.
+    cbn [fmt_lexes] in Hl. cbv zeta in Hl. fold v in Hl. fold o in Hl.
+    destruct (parse_value o) as [[w first] conts] eqn:Ep. destruct Hl as [_ Hne].
+    destruct (parse_value_no_lead o w first conts Hn Ep) as [-> Hfirst].
+    pose proof (parse_value_text o [] first conts Ep) as Ho. unfold value_text in Ho. cbn [app] in Ho.
+    unfold rebuild_field. destruct (fits c (f_name f) [] first && is_nil conts) eqn:Efit.
+    - apply andb_true_iff in Efit. destruct Efit as [_ En]. destruct conts; [|discriminate].
+      cbn [f_first f_cont f_ws map flat_map] in *. rewrite app_nil_r in Ho.
+      replace (field_ws0 (mk_field (f_name f) [] first [] true)) with (@nil N) by (unfold field_ws0; cbn; destruct first; reflexivity).
+      unfold value_text. cbn [app flat_map]. rewrite app_nil_r, <- Ho. apply (Ha (f_name f) v []). reflexivity.
+    - destruct (value_lines first conts) as [|l1 rest] eqn:El.
+      + assert (first = [] /\ conts = []) as [-> ->] by (unfold value_lines in El; destruct first; [split; [reflexivity|exact El]|discriminate]).
+        cbn [flat_map app] in Ho. unfold field_ws0, value_text. cbn [f_first f_cont f_ws map flat_map app].
+        rewrite <- Ho. apply (Ha (f_name f) v []). reflexivity.
+      + assert (Hl1 : first = l1 /\ conts = rest).
+        { unfold value_lines in El. destruct first as [|b first']; [|injection El as <- <-; split; reflexivity].
+          destruct (Hfirst eq_refl) as [-> _]. discriminate. }
+        destruct Hl1 as [-> ->].
+        assert (Hl1ne : l1 <> []) by (apply (value_lines_head_nonempty l1 rest l1 rest Hne El)).
+        destruct (c_iel c && negb (is_nil rest) && negb (starts_with_hash l1)).
+        * unfold field_ws0, value_text. cbn [f_first f_cont f_ws]. rewrite map_snd_indent.
+          replace (match indent_lines (width c (f_name f)) (l1 :: rest) with [] => [] | _ :: _ => @nil N end) with (@nil N) by reflexivity.
+          cbn [app flat_map]. change (LF :: l1 ++ flat_map (fun t : str => LF :: t) rest) with ([LF] ++ (l1 ++ flat_map (fun t : str => LF :: t) rest)).
+          rewrite <- Ho. apply (Ha (f_name f) v [LF]). reflexivity.
+        * unfold value_text. cbn [f_first f_cont]. rewrite map_snd_indent.
+          replace (field_ws0 (mk_field (f_name f) [32%N] l1 (indent_lines (width c (f_name f)) rest) true)) with [32%N]
+            by (unfold field_ws0; cbn [f_first f_cont f_ws]; destruct l1; [contradiction|reflexivity]).
+          rewrite <- Ho. apply (Ha (f_name f) v [32%N]). reflexivity. }
+  assert (Hname : f_name (a_ws_field c (Some g) f) = f_name f).
+  { unfold a_ws_field. destruct (parse_value _) as [[w first] conts]. apply rebuild_field_name. }
+  split; [split|].
+  - unfold a_ws_field at 1. rewrite Hname, Hkey. unfold a_ws_field. fold v. fold o. reflexivity.
+  - apply a_ws_field_pair; [exact Hcn|exact Hl].
+  - cbn [fmt_lexes]. cbv zeta. rewrite Hname, Hkey. exact Hl.
+Qed.
